@@ -491,6 +491,10 @@ def r3_asserts(text, hits):
     return text
 
 
+# format-string literal (with quotes) -> stand-in function name; set by the template directive //@formatfn
+FORMAT_FNS = {}
+
+
 def r4_errors(text, hits):
     """Error::new(kind, format!(..)) / Error::new(kind, "..") -> verif_error();  remaining format!(..) -> verif_string()"""
     while True:
@@ -509,8 +513,15 @@ def r4_errors(text, hits):
     while True:
         m = mask(text)
         for s, o, c, name in _macro_calls(text, m, ['format']):
-            text = _sub(text, s, c + 1, 'verif_string()')
-            _count(hits, 'R4.format')
+            args = _split_args(text[o + 1:c])
+            lit = args[0].strip() if args else ''
+            if lit in FORMAT_FNS:
+                # a format! with a registered format string keeps its arguments: fn(&a1, &a2, ..) with an assumed contract
+                text = _sub(text, s, c + 1, '%s(%s)' % (FORMAT_FNS[lit], ', '.join('&(' + a.strip() + ')' for a in args[1:] if a.strip())))
+                _count(hits, 'R4.format_as_fn:' + FORMAT_FNS[lit])
+            else:
+                text = _sub(text, s, c + 1, 'verif_string()')
+                _count(hits, 'R4.format')
             break
         else:
             break
